@@ -348,6 +348,7 @@ class InternationalizationExtension(Extension):
         # a later state.
         plural_expr: nodes.Expr | None = None
         plural_expr_assignment: nodes.Assign | None = None
+        pluralize_assignment: nodes.Assign | None = None
         num_called_num = False
         variables: dict[str, nodes.Expr] = {}
         trimmed = None
@@ -378,7 +379,10 @@ class InternationalizationExtension(Extension):
                 variables[token.value] = var = nodes.Name(token.value, "load")
 
             if plural_expr is None:
-                if isinstance(var, nodes.Call):
+                # Anything but a plain name or constant is evaluated once and
+                # kept in a variable: the count is used as a message variable
+                # and as the plural selector.
+                if not isinstance(var, (nodes.Name, nodes.Const)):
                     plural_expr = nodes.Name("_trans", "load")
                     variables[token.value] = plural_expr
                     plural_expr_assignment = nodes.Assign(
@@ -418,6 +422,15 @@ class InternationalizationExtension(Extension):
                     )
                 plural_expr = variables[token.value]
                 num_called_num = token.value == "num"
+
+                # The named variable selects the plural form and is a message
+                # variable too: evaluate its expression once.
+                if not isinstance(plural_expr, (nodes.Name, nodes.Const)):
+                    pluralize_assignment = nodes.Assign(
+                        nodes.Name("_trans_n", "store"), plural_expr
+                    )
+                    plural_expr = nodes.Name("_trans_n", "load")
+                    variables[token.value] = plural_expr
             parser.stream.expect("block_end")
             plural_names, plural = self._parse_block(parser, False)
             next(parser.stream)
@@ -452,11 +465,17 @@ class InternationalizationExtension(Extension):
             num_called_num and have_plural,
         )
         node.set_lineno(lineno)
-        if plural_expr_assignment is not None:
-            plural_expr_assignment.set_lineno(lineno)
-            return [plural_expr_assignment, node]
-        else:
-            return node
+        rv: list[nodes.Node] = []
+
+        for assignment in plural_expr_assignment, pluralize_assignment:
+            if assignment is not None:
+                assignment.set_lineno(lineno)
+                rv.append(assignment)
+
+        if rv:
+            return [*rv, node]
+
+        return node
 
     def _trim_whitespace(self, string: str, _ws_re: t.Pattern[str] = _ws_re) -> str:
         return _ws_re.sub(" ", string.strip())
